@@ -126,6 +126,11 @@ func (sm *stateMachine) executeAction(t *T) bool {
 		i := t.s.beginGroup(actionLabel, false)
 		action := sm.actions[sm.actionKeys.Draw(t, "action")]
 		invalid, skipped := runAction(t, action)
+		if skipped {
+			// a skipped action stays in the recording, so everything it has consumed (e.g. the rejected
+			// attempts of a generator that failed to produce a value) has to stay as well
+			t.s.keepGroup(i)
+		}
 		t.s.endGroup(i, false)
 
 		if skipped {
